@@ -49,16 +49,23 @@ def case_analytic(col, p):
     d = len(ns)
     xx = _grid(gk, G, p['seed'])
     fg = RSa.fgrid(np.clip(xx, 0, 1))
-    Ws = [RSa.as_float(RSa.W_exact(n, fg)) for n in ns]
+    grids = [xx] * d
+    if p.get('later_grids'):
+        # the first two populations share a grid (the implementation insists); the third and later ones are on grids of their own
+        alt = ['D2', 'U', 'D']
+        grids = [xx, xx] + [space.grid(alt[(k - 2) % 3], G, p['seed'] + k) for k in range(2, d)]
+    fgl = [RSa.fgrid(np.clip(g_, 0, 1)) for g_ in grids]
+    Ws = [RSa.as_float(RSa.W_exact(n, fgk)) for n, fgk in zip(ns, fgl)]
     shape = (G,) * d
     scale = max(float(np.abs(W).max()) for W in Ws) ** d if d > 1 else float(np.abs(Ws[0]).max())
     tol = 2e-12 * max(scale, 1e-300) * (1 + max(ns) / 10.0)
     lo, hi = p.get('units', (0, G ** d))
+    hi = min(hi, G ** d)
     ids = ['s%d' % k for k in range(d)]
-    wts = [np.array([float(v) for v in RSa.trapz_w(fg)])] * d
+    wts = [np.array([float(v) for v in RSa.trapz_w(fgk)]) for fgk in fgl]
     n = 0
     for idx, phi in _units(shape, lo, hi):
-        fs = dadi.Spectrum.from_phi(phi, list(ns), [xx] * d, mask_corners=False, pop_ids=ids)
+        fs = dadi.Spectrum.from_phi(phi, list(ns), list(grids), mask_corners=False, pop_ids=ids)
         col.tick(transitions=1)
         n += 1
         got = np.asarray(fs.data)
@@ -85,7 +92,7 @@ def case_analytic(col, p):
     if not (m.flat[0] and m.flat[-1] and m.sum() == 2) and m.size > 2:
         col.violation('C05:from_phi:mask_corners', dict(p), {'mask': m.astype(int)})
     col.tick(states=n, traces=n)
-    col.distinct('nontrivial', ('analytic', ns, G, gk, lo))
+    col.distinct('nontrivial', ('analytic', ns, G, gk, lo, bool(p.get('later_grids'))))
 
 
 def case_direct(col, p):
@@ -454,6 +461,8 @@ def run(ctx):
             N = G ** d
             cases.append({'kind': 'analytic', 'ns': ns, 'G': G, 'grid': 'D', 'seed': seed})
     cases.append({'kind': 'analytic', 'ns': (2, 3, 1, 2), 'G': 4, 'grid': 'E', 'seed': seed})
+    for ns in ((2, 2, 3), (3, 2, 2, 2), (2, 2, 2, 1, 2)):
+        cases.append({'kind': 'analytic', 'ns': ns, 'G': 4, 'grid': 'E', 'seed': seed, 'later_grids': True, 'units': (0, 256)})
     cases.append({'kind': 'analytic', 'ns': (1, 2, 3, 1, 2), 'G': 4, 'grid': 'E', 'seed': seed, 'units': (0, 512)})
     cases.append({'kind': 'analytic', 'ns': (1, 2, 3, 1, 2), 'G': 4, 'grid': 'E', 'seed': seed, 'units': (512, 1024)})
     if ctx.quick:
